@@ -26,7 +26,8 @@ TECHNIQUE = (
 LEVEL_TEXT = (
     "Every concrete service class found by walking APCI.__subclasses__(); baseline instances come from decoding hand-written valid frames. "
     "Each int field takes 0..4098, -1, -2, 2^k-1/2^k/2^k+1 for k<=32, 2^16+-1, 2^24+-1, 2^32+-1, -2^31; each bytes field every length 0..20 "
-    "(random and zero content); bool/enum/address/list/DPT payload/SCF fields their domains; nested SecureData byte fields every length 0..20; "
+    "(random, zero, 0xFF and other all-equal content); list fields every length 0..8 distinct, the same element 2..8 times (identical and "
+    "equal-but-distinct objects), duplicates at start/middle/end, maximum length and beyond with 2/3/6 distinct values; bool/enum/address/list/DPT payload/SCF fields their domains; nested SecureData byte fields every length 0..20; "
     "the other fields at the baseline and (quick x3, thorough x20) at random values that round-trip on their own. Exploration: values beyond the sweep are not tried."
 )
 LEVEL_NOTE = (
@@ -52,8 +53,34 @@ def _bytes_domain(rng):
     out = []
     for length in range(21):
         out.append(bytes(rng.randrange(1, 256) for _ in range(length)))
-        if length:
+        if length:  # all-equal octets: a codec that de-duplicates, run-length packs or strips padding shows here
             out.append(bytes(length))
+            out.append(b"\xff" * length)
+            out.append(bytes([rng.randrange(1, 255)]) * length)
+    return out
+
+
+def _ga_lists(rng):
+    """Lists of group addresses: every length 0..8 distinct, repeated entries everywhere, equal-but-not-identical elements."""
+    def ga():
+        return GroupAddress(rng.randrange(1, 65536))
+
+    out = [[ga() for _ in range(n)] for n in range(9)]
+    one = ga()
+    out += [[one] * n for n in range(2, 9)]  # the same element 2..8 times (identical object)
+    out += [[GroupAddress(one.raw) for _ in range(n)] for n in range(2, 9)]  # equal, not identical
+    out += [[GroupAddress("1/2/3"), GroupAddress(0x0A03)], [GroupAddress(0x0A03), ga(), GroupAddress("1/2/3")]]
+    for n in range(3, 9):  # one duplicated pair at the start / middle / end / far apart, rest distinct
+        base = [ga() for _ in range(n)]
+        for i, j in ((0, 1), (n // 2 - 1, n // 2), (n - 2, n - 1), (0, n - 1)):
+            dup = list(base)
+            dup[j] = GroupAddress(dup[i].raw)
+            out.append(dup)
+    for n in (6, 7, 8):  # maximum length and beyond with only 2 / 3 / 6 distinct values
+        for distinct in (2, 3, 6):
+            pool = [ga() for _ in range(distinct)]
+            out.append([pool[i % distinct] for i in range(n)])
+    out += [[GroupAddress(0)] * 3, [GroupAddress(0xFFFF)] * 6]
     return out
 
 
@@ -74,12 +101,13 @@ def _domain(token, rng, full):
     if token == "GroupAddress":
         return [GroupAddress(v) for v in (0, 1, 0x0801, 0xFFFE, 0xFFFF, *(rng.randrange(65536) for _ in range(6)))]
     if token == "list[GroupAddress]":
-        return [[GroupAddress(rng.randrange(65536)) for _ in range(n)] for n in range(9)]
+        return _ga_lists(rng)
     if token == "DPTBinary":
         return [DPTBinary(v) for v in range(64)]
     if token == "DPTArray":
         out = [DPTArray(b) for b in _bytes_domain(rng)]
         out += [DPTArray((v,)) for v in (0, 1, 63, 64, 255)]
+        out += [DPTArray((v,) * n) for v in (0, 7, 255) for n in (2, 3, 14)]
         return out
     if token == "SecurityControlField":
         return [
@@ -91,6 +119,7 @@ def _domain(token, rng, full):
 
 def field_tokens(field):
     text = field.type if isinstance(field.type, str) else getattr(field.type, "__name__", str(field.type))
+    # any list/tuple-valued field must map to a token _domain() knows, else the run is inconclusive
     return [t.strip() for t in text.split("|")]
 
 
@@ -186,7 +215,7 @@ def describe_difference(obj, back, path):
     orig, got = get_field(obj, path), get_field(back, path)
     if type(orig) is not type(got) and not (isinstance(orig, (bytes, bytearray)) and isinstance(got, (bytes, bytearray))):
         return f"becomes-{type(got).__name__}"
-    if isinstance(orig, (bytes, bytearray)):
+    if isinstance(orig, (bytes, bytearray, list, tuple)):
         if len(got) > len(orig):
             return "padded"
         if len(got) < len(orig):
